@@ -687,7 +687,8 @@ def rule_redeclared(chk, prog, tier):
         r.instance(got_ok == ok, 'redeclared:parameters(%s)' % ', '.join(n or '-' for n in names), 'decl.c:declaratortypes', 'must be %s; cproc: %s %s' % ('accepted' if ok else 'diagnosed', runs[0].outcome, runs[0].detail if not got_ok else ''))
     # ---- members
     am = prog.require_func('addmember', 'decl.c')
-    ML = [(['a', 'b'], True), (['a', 'a'], False), (['a', 'b', 'a'], False), (['a', ('anon', ['b']), 'b'], False), (['a', ('anon', ['b']), 'c'], True), ([('anon', ['x', 'y']), 'y'], False), (['a', 'a:3'], False), (['a:3', 'b:3'], True)]
+    ML = [(['a', 'b'], True), (['a', 'a'], False), (['a', 'b', 'a'], False), (['a', ('anon', ['b']), 'b'], False), (['a', ('anon', ['b']), 'c'], True), ([('anon', ['x', 'y']), 'y'], False), (['a', 'a:3'], False), (['a:3', 'b:3'], True),
+          (['b', ('anon', ['b'])], False), (['a', ('anon', ['x', 'a'])], False), ([('anon', ['x']), ('anon', ['x'])], False), ([('anon', ['x']), ('anon', ['y'])], True), (['a', 'b', ('anon', ['c', 'd'])], True)]
     for kind in ('TYPESTRUCT', 'TYPEUNION'):
         for members, ok in ML:
             def runner(it):
